@@ -84,9 +84,10 @@ def offsets(r, ny, nx):
 
 # ---------------------------------------------------------------- apertures
 
-def gen_apertures(r, ny, nx, margin):
+def gen_apertures(r, ny, nx, margin, k=None):
     from photutils.aperture import (CircularAperture, CircularAnnulus, EllipticalAperture, EllipticalAnnulus, RectangularAperture, RectangularAnnulus)
-    kind = r.choice(['circ', 'circann', 'ell', 'ellann', 'rect', 'rectann'])
+    kinds = ['rect', 'ell', 'rectann', 'circ', 'ellann', 'circann']
+    kind = r.choice(kinds) if k is None else kinds[k % 6]          # every run of >= 6 cases sees every shape
     n = r.randint(1, 3)
     # generic (non-dyadic) positions and sizes: a pixel centre or sub-pixel centre exactly on the aperture boundary is a rounding
     # knife-edge for the 'center' / 'subpixel' methods, not a covariance question
@@ -94,6 +95,8 @@ def gen_apertures(r, ny, nx, margin):
     if r.random() < 0.3:
         pos = [(round(x * 4) / 4 + 0.0137, round(y * 4) / 4 - 0.0291) for x, y in pos]
     th = r.uniform(-math.pi, math.pi)
+    if k is not None and (k // 6) % 2 == 0:
+        th = -r.uniform(0.2, math.pi / 2 - 0.2)                    # sin and cos of opposite sign (extent formulas with signs: seed C03-r10)
     a = r.choice([1.43, 2.07, 2.76, 3.51])
     p = dict(kind=kind, pos=pos, theta=th, a=a, b=a * r.choice([0.4, 0.7, 1.0]), w=2 * a, h=a * r.choice([0.8, 1.5]))
 
@@ -123,8 +126,8 @@ def aperture_sweep(rep, r, n):
             mask = np.zeros((ny, nx), bool)
             for _ in range(r.randint(1, 4)):
                 mask[r.randrange(ny), r.randrange(nx)] = True
-        p, make = gen_apertures(r, ny, nx, margin=5)
-        method = r.choice(['exact', 'center', 'subpixel'])
+        p, make = gen_apertures(r, ny, nx, margin=5, k=k)
+        method = ['exact', 'center', 'subpixel', 'center', 'exact'][k % 5]
         dy, dx, NY, NX = offsets(r, ny, nx)
         rp = {'api': 'aperture', 'aperture': p, 'method': method, 'data': img.tolist(), 'mask': None if mask is None else mask.astype(int).tolist(),
               'offset': [dx, dy], 'canvas': [NY, NX]}
